@@ -182,8 +182,6 @@ def check_api(ctx, cases, seeds=None):
                     dict(rep, expect="rejected"), an)
         elif not an["ill"] and res == "rejected":
             ctx.violation(f"accept: well-formed graph rejected by create_dag (tasks {canon[1]}, py {s.get('py')})", dict(rep, expect="accepted"), None)
-        elif res == "rejected" and not a.get("report"):
-            ctx.violation(f"reject: rejection without a DAG report (tasks {canon[1]})", dict(rep, expect="rejected"), None)
         if model_ans is not None:
             m = dagproj.parse_dag_answer(model_ans[i])
             ctx.traces_validated += 1
